@@ -15,6 +15,7 @@ import gen_comp
 import extract_comp as X
 import c01
 import c08
+import c12_cfg
 
 import autofit as af
 from autofit.mapper.model import ModelInstance
@@ -248,10 +249,23 @@ def one_case(ctx, prog, label="gen", explicit_wm=None):
         if "no_limits" in mode:
             wire_mode["no_limits"] = True
         pairs = [[f2h(l[0]), f2h(l[1])] for l in lims] if lims else [[f2h(x), f2h(0.0)] for x in xs_eff]
-        ans = ctx.lean.ask({"p": "C12", "comp": comp, "mode": wire_mode, "olds": olds, "cfgs": cfgs, "xs": pairs})
+        # the configuration of every parameter is looked up by the model itself (generated tables + look-up
+        # order of the library), from the class and attribute name of the parameter's place
+        places = []
+        for p in priors:
+            cp = c12_cfg.candidate_places(model, p)
+            places.append(c12_cfg.place_wire(*(cp[0] if cp else (ModelInstance, "")), p))
+        req = {"p": "C12", "comp": comp, "mode": wire_mode, "olds": olds, "xs": pairs}
+        if CHAIN is not None:
+            req["places"], req["chain"] = places, CHAIN
+        else:
+            req["cfgs"] = cfgs
+        ans = ctx.lean.ask(req)
         if "driver_error" in ans:
             ctx.disagree("driver", case, None, ans)
             continue
+        if not ans.get("cfg_ok", True):
+            ctx.disagree("C12.config-readable", case, "passing succeeded", "model: a configuration entry read here is malformed")
         new_priors = list(new.priors_ordered_by_id)
         if len(new_priors) == len(ans["new"]):
             for j, (np_, md) in enumerate(zip(new_priors, ans["new"])):
@@ -330,6 +344,19 @@ def expected(model, p, x, mode, lim, repl):
     return out
 
 
+CHAIN = None  # names of the generated configuration tables along the library's chain (set by setup_config)
+SCRATCH = None
+
+
+def setup_config(ctx):
+    """tie the generated configuration tables to what the library loaded; from then on the model looks the
+    configuration of every place up itself"""
+    global CHAIN, SCRATCH
+    from autoconf import conf
+    SCRATCH = conf.instance.paths[0]
+    CHAIN = c12_cfg.check_tables(ctx)
+
+
 def run(ctx):
     ctx.rule = RULE
     ctx.assumptions = [
@@ -337,9 +364,11 @@ def run(ctx):
         "a shared prior whose places are configured differently may take the configuration of any of its places",
         "result.model / model_absolute / model_relative / model_bounded call the methods exercised here with the result's medians",
     ]
+    setup_config(ctx)
     for f in sorted((VERIF / "corpus" / "C12").glob("*.json")):
         c = json.loads(f.read_text())
         one_case(ctx, c["program"], label=f.name)
+    c12_cfg.lookup_cases(ctx, SCRATCH, ctx.n(400, 6000))
     for _ in range(ctx.n(160, 3000)):
         prog = gen_comp.gen_program(ctx.rng, allow_pow=False)
         one_case(ctx, prog)
@@ -347,4 +376,7 @@ def run(ctx):
 
 def replay(ctx, payload):
     case = payload.get("case") or payload.get("disagreements", [{}])[0].get("case")
+    setup_config(ctx)
+    if "lookup" in case:
+        return c12_cfg.replay_lookup(ctx, SCRATCH, case["lookup"])
     one_case(ctx, case["program"], label="replay", explicit_wm=case.get("explicit_wm"))
